@@ -126,8 +126,10 @@ Qed.
 Lemma is_RInt_zero_fun (f : R -> R) (b:R) : (forall x, f x = 0) -> is_RInt f 0 b 0.
 Proof.
  intros E. apply (is_RInt_ext (fun _ => 0)). { intros x _. symmetry. apply E. }
- replace 0 with (scal (b - 0) 0) at 3 by (unfold scal; simpl; unfold mult; simpl; ring).
- apply (is_RInt_const (V:=R_NormedModule)).
+ pose proof (is_RInt_const (V:=R_NormedModule) 0 b 0) as H.
+ match type of H with is_RInt _ _ _ ?v =>
+   replace v with (0:R) in H by (unfold scal; simpl; unfold mult; simpl; eqR; ring) end.
+ exact H.
 Qed.
 
 (* ------------------------------------------------------------------ *)
@@ -140,7 +142,7 @@ Lemma low_x_term_plain_value (xmin xmax yin0 r:R) : xmin <> 0 -> r <> 0 ->
   (2*(xmin*r)*sin (xmin*r) - ((xmin*r)*(xmin*r) - 2)*cos (xmin*r) - 2) / (r*r*r) * (yin0/xmin + 1) / xmin
   - (sin (xmin*r) - xmin*r*cos (xmin*r)) / (r*r).
 Proof.
- intros Hq Hr. unfold low_x_term; numR.
+ intros Hq Hr. unfold low_x_term, neqb; numR.
  destruct (Reqb_spec xmin 0) as [E|_]; [contradiction|].
  destruct (Reqb_spec r 0) as [E|_]; [contradiction|].
  cbn [negb]. reflexivity.
@@ -153,7 +155,7 @@ Lemma low_x_term_lorch_value (xmin xmax yin0 r:R) : xmin <> 0 ->
     - (xmin*(r+a) * sin (xmin*(r+a)) + cos (xmin*(r+a)) - 1) / ((r+a)*(r+a))) / (2*a) * (yin0/xmin + 1) / xmin
   - (sin (xmin*(r-a)) / (r-a) - sin (xmin*(r+a)) / (r+a)) / (2*a).
 Proof.
- intros Hq a. unfold low_x_term; numR.
+ intros Hq a. unfold low_x_term, neqb; numR.
  destruct (Reqb_spec xmin 0) as [E|_]; [contradiction|].
  cbn [negb]. reflexivity.
 Qed.
@@ -161,7 +163,7 @@ Qed.
 (* 4. the term is zero when Qmin = 0 *)
 Lemma low_x_term_zero_qmin0 (l:bool) (xmax yin0 r:R) : low_x_term l 0 xmax yin0 r = 0.
 Proof.
- unfold low_x_term; numR.
+ unfold low_x_term, neqb; numR.
  destruct (Reqb_spec 0 0) as [_|N]; [|contradiction N; reflexivity]. cbn [negb].
  destruct l.
  - rewrite !Rmult_0_l, sin_0. unfold Rdiv. ring.
@@ -171,7 +173,7 @@ Qed.
 (* 5. the term vanishes at r = 0 *)
 Lemma low_x_term_zero_r0 (xmin xmax yin0:R) : low_x_term false xmin xmax yin0 0 = 0.
 Proof.
- unfold low_x_term; numR.
+ unfold low_x_term, neqb; numR.
  destruct (Reqb_spec 0 0) as [_|N]; [|contradiction N; reflexivity]. cbn [negb].
  destruct (Reqb_spec xmin 0); cbn [negb]; unfold Rdiv; ring.
 Qed.
@@ -179,7 +181,7 @@ Qed.
 (* with the window the two half-terms cancel by evenness (vm = -vp at r = 0) *)
 Lemma low_x_term_zero_r0_lorch (xmin xmax yin0:R) : low_x_term true xmin xmax yin0 0 = 0.
 Proof.
- unfold low_x_term; numR. set (a := PI / xmax).
+ unfold low_x_term, neqb; numR. set (a := PI / xmax).
  replace (0 - a) with (- a) by ring. replace (0 + a) with a by ring.
  replace (xmin * - a) with (- (xmin * a)) by ring.
  rewrite sin_neg, cos_neg. unfold Rdiv. rewrite Rinv_opp.
@@ -252,9 +254,154 @@ Proof.
  intros Hq Hx Hm Hp.
  eapply is_RInt_ext; [|apply low_x_term_lorch_is_integral; eassumption].
  intros Q [HQ _]. rewrite Rmin_left in HQ by lra. cbv beta.
- unfold lorch_weight; numR.
+ unfold lorch_weight, neqb; numR.
  assert (Ha : PI / xmax <> 0).
  { unfold Rdiv. apply Rmult_integral_contrapositive_currified; [apply PI_neq0 | apply Rinv_neq_0_compat; lra]. }
  destruct (Reqb_spec (PI / xmax * Q) 0) as [E|_]; cbn [negb]; [|reflexivity].
  apply Rmult_integral in E. destruct E; [contradiction | lra].
+Qed.
+
+(* ------------------------------------------------------------------ *)
+(* 3. The term inside fourier_transform / F_to_G                        *)
+(* ------------------------------------------------------------------ *)
+
+(* running min / max bound every element *)
+Lemma minl_le_d (l : list R) : forall d, minl d l <= d.
+Proof.
+ induction l as [|x l IH]; intros d; cbn [minl]; numR; [lra|].
+ destruct (Rltb_spec x d) as [L|L]; [eapply Rle_trans; [apply IH|lra] | apply IH].
+Qed.
+Lemma minl_le_in (l : list R) : forall d y, In y l -> minl d l <= y.
+Proof.
+ induction l as [|x l IH]; intros d y []; cbn [minl]; numR.
+ - subst y. eapply Rle_trans; [apply minl_le_d|]. destruct (Rltb_spec x d); lra.
+ - apply IH; assumption.
+Qed.
+Lemma maxl_ge_d (l : list R) : forall d, d <= maxl d l.
+Proof.
+ induction l as [|x l IH]; intros d; cbn [maxl]; numR; [lra|].
+ destruct (Rltb_spec d x) as [L|L]; [eapply Rle_trans; [|apply IH]; lra | apply IH].
+Qed.
+Lemma maxl_ge_in (l : list R) : forall d y, In y l -> y <= maxl d l.
+Proof.
+ induction l as [|x l IH]; intros d y []; cbn [maxl]; numR.
+ - subst y. eapply Rle_trans; [|apply maxl_ge_d]. destruct (Rltb_spec d x); lra.
+ - apply IH; assumption.
+Qed.
+Lemma vmin_le_in (x : list R) y : In y x -> vmin x <= y.
+Proof. destruct x as [|x0 x]; intros []; cbn [vmin]; [subst; apply minl_le_d | apply minl_le_in; assumption]. Qed.
+Lemma vmax_ge_in (x : list R) y : In y x -> y <= vmax x.
+Proof. destruct x as [|x0 x]; intros []; cbn [vmax]; [subst; apply maxl_ge_d | apply maxl_ge_in; assumption]. Qed.
+
+(* the default window [min x, max x] keeps every point *)
+Lemma crop_mask_full (x : list R) : crop_mask x (vmin x) (vmax x) = map (fun _ => true) x.
+Proof.
+ unfold crop_mask. apply map_ext_in. intros y Hy. numR.
+ rewrite Rleb_true by (apply vmin_le_in; exact Hy).
+ rewrite Rleb_true by (apply vmax_ge_in; exact Hy). reflexivity.
+Qed.
+Lemma select_all_true {B} (x : list R) (l : list B) :
+  length l = length x -> select (map (fun _ => true) x) l = l.
+Proof.
+ revert l; induction x as [|x0 x IH]; intros [|b l] E; cbn in *; try discriminate; auto.
+ f_equal. apply IH. congruence.
+Qed.
+Lemma crop_full (x y : list R) dy : length y = length x -> length (dflt_zeros y dy) = length x ->
+  apply_cropping x y (vmin x) (vmax x) dy = (x, y, dflt_zeros y dy).
+Proof.
+ intros Ly Ld. unfold apply_cropping. rewrite crop_mask_full.
+ rewrite !select_all_true by auto. reflexivity.
+Qed.
+
+Lemma map2_self_map {X Y Z} (f : X -> Y -> Z) (g : X -> Y) l :
+  map2 f l (map g l) = map (fun x => f x (g x)) l.
+Proof. induction l; cbn; f_equal; auto. Qed.
+Lemma map2_map_self {X Y Z} (f : Y -> X -> Z) (g : X -> Y) l :
+  map2 f (map g l) l = map (fun x => f (g x) x) l.
+Proof. induction l; cbn; f_equal; auto. Qed.
+
+(* the middle component of a transform result *)
+Definition tvalues (t : list R * list R * list R) : list R := snd (fst t).
+(* the same keywords with the omitted-range correction switched off *)
+Definition without_omitted (k : kw R) : kw R :=
+  {| rho := rho k; bcoh := bcoh k; btot := btot k; lorch := lorch k; omitted := false |}.
+
+(* the values of fourier_transform with the default window do not look at the uncertainties *)
+Lemma fourier_transform_values (q f r : list R) df (k : kw R) : length f = length q ->
+  tvalues (fourier_transform q f r None None df k) =
+  let factor := if lorch k then lorch_factor (vmax q) q else ones_like f in
+  let yout := map (fun x => trapz q (map2 (fun fy xi => fy * Rtrigo_def.sin (xi * x)) (vmul factor f) q)) r in
+  if omitted k then low_x_correction (lorch k) q f r yout else yout.
+Proof.
+ intros Lf. unfold tvalues, fourier_transform, apply_cropping.
+ rewrite crop_mask_full, !select_all_true by auto. cbv zeta. numR.
+ destruct (omitted k); reflexivity.
+Qed.
+
+(* 3. with the correction on, G(r) = G_uncorrected(r) + (2/pi) * term(r) *)
+Lemma low_x_added_term_F_to_G (q f r : list R) df (k : kw R) :
+  length f = length q -> omitted k = true ->
+  tvalues (F_to_G q f r df k) =
+  map2 (fun v r' => v + low_x_term (lorch k) (vmin q) (vmax q) (hd 0 f) r' * (2 / PI))
+       (tvalues (F_to_G q f r df (without_omitted k))) r.
+Proof.
+ intros Lf Om.
+ assert (E : forall k', tvalues (F_to_G q f r df k')
+              = vscale_r two_over_pi (tvalues (fourier_transform q f r None None df k'))).
+ { intros k'. unfold F_to_G, tvalues.
+   destruct (fourier_transform q f r None None df k') as [[a b] c]. reflexivity. }
+ rewrite !E, !fourier_transform_values by assumption.
+ rewrite Om. cbn [omitted lorch without_omitted]. cbv zeta.
+ unfold low_x_correction, vscale_r, two_over_pi. numR.
+ rewrite map2_self_map, !map_map, map2_map_self.
+ apply map_ext. intros x. ring.
+Qed.
+
+(* 6. the correction reads the input only through min(q), max(q) and the first data value *)
+Lemma low_x_depends_only_on (l : bool) (q q' f f' r y : list R) :
+  vmin q = vmin q' -> vmax q = vmax q' -> hd 0 f = hd 0 f' ->
+  low_x_correction l q f r y = low_x_correction l q' f' r y.
+Proof. intros E1 E2 E3. unfold low_x_correction. numR. rewrite E1, E2, E3. reflexivity. Qed.
+
+(* ------------------------------------------------------------------ *)
+(* 4. Non-vacuity: the hypotheses hold on concrete instances            *)
+(* ------------------------------------------------------------------ *)
+
+Example low_x_term_plain_is_integral_nonvacuous :
+  is_RInt (fun Q => Q * ((3/1 + 1) * Q / 1 - 1) * sin (Q * 2)) 0 1 (low_x_term false 1 5 3 2).
+Proof. apply low_x_term_plain_is_integral. lra. Qed.
+
+(* Qmin = 1, Qmax = pi (so a = 1), r = 2 *)
+Example low_x_term_lorch_is_integral_nonvacuous :
+  is_RInt (fun Q => Q * ((3/1 + 1) * Q / 1 - 1) * (sin (PI / PI * Q) / (PI / PI * Q)) * sin (Q * 2))
+          0 1 (low_x_term true 1 PI 3 2).
+Proof.
+ assert (P := PI_RGT_0). assert (E : PI / PI = 1) by (field; lra).
+ apply low_x_term_lorch_is_integral; rewrite ?E; lra.
+Qed.
+
+(* 3-point grid, correction and Lorch on *)
+Example low_x_added_term_F_to_G_nonvacuous :
+  let k := {| rho := 1; bcoh := 1; btot := 1; lorch := true; omitted := true |} in
+  let q := [1; 2; 3] in let f := [3; 1; 2] in let r := [0; 1; 2] in
+  tvalues (F_to_G q f r None k) =
+  map2 (fun v r' => v + low_x_term true 1 3 3 r' * (2 / PI))
+       (tvalues (F_to_G q f r None (without_omitted k))) r.
+Proof.
+ intros k q f r.
+ assert (Emin : vmin q = 1).
+ { unfold q. cbn [vmin minl]. numR. rewrite (Rltb_false 2 1) by lra. rewrite (Rltb_false 3 1) by lra. reflexivity. }
+ assert (Emax : vmax q = 3).
+ { unfold q. cbn [vmax maxl]. numR. rewrite (Rltb_true 1 2) by lra. rewrite (Rltb_true 2 3) by lra. reflexivity. }
+ pose proof (low_x_added_term_F_to_G q f r None k eq_refl eq_refl) as H.
+ rewrite Emin, Emax in H. exact H.
+Qed.
+
+(* two different data sets sharing Qmin, Qmax and the first value *)
+Example low_x_depends_only_on_nonvacuous (l : bool) (r y : list R) :
+  low_x_correction l [1; 2; 3] [3; 1; 2] r y = low_x_correction l [1; 3] [3; 7] r y.
+Proof.
+ apply low_x_depends_only_on; [| |reflexivity].
+ - cbn [vmin minl]. numR. rewrite (Rltb_false 2 1) by lra. rewrite !(Rltb_false 3 1) by lra. reflexivity.
+ - cbn [vmax maxl]. numR. rewrite (Rltb_true 1 2) by lra. rewrite (Rltb_true 2 3), (Rltb_true 1 3) by lra. reflexivity.
 Qed.
